@@ -344,6 +344,12 @@ ByteArray decodeHex(const String& s)
 	return a;
 }
 
+#ifdef ASL_VERIF
+}
+extern "C" void (*asl_verif_hook)(int kind, const volatile void* obj, long val) = 0;
+namespace asl {
+#endif
+
 void asl_die(const char* msg, int line)
 {
 	fprintf(stderr, "Fatal Error: %s : %i\n", msg, line);
